@@ -440,7 +440,7 @@ def main():
         rec.write(args.out); return
     n_cfg, n_mcmc = (4500, 250) if args.tier == "quick" else (60000, 2500)
     rng = rng_of(args.seed, 1)
-    t0 = time.time(); budget = 30 if args.tier == "quick" else 300
+    t0 = time.process_time(); budget = 2 * 30 if args.tier == "quick" else 300
     kinds = ["mixed"] * 6 + ["dense"] * 2 + ["sparse"] + ["degenerate"]
     for t in range(n_cfg):
         kind = kinds[t % len(kinds)]
@@ -454,7 +454,7 @@ def main():
             inp2 = dict(cfg=cfg, n_slope_lenses=int(rng.integers(0, 4)), vseed=int(rng.integers(2 ** 31)), mcmc=True)
             rec.case(dict(mcmc=inp2["n_slope_lenses"], cfg=cfg), kind="mcmc_names")
             rec.guard(run_mcmc_case, rec, inp2)
-        if time.time() - t0 > budget: break
+        if time.process_time() - t0 > budget: break
     rec.write(args.out)
 
 
